@@ -266,7 +266,7 @@ func TestConfirmation(t *testing.T) {
 
 // TestRandomConfirmation: generated credentials and suites, random answers.
 func TestRandomConfirmation(t *testing.T) {
-	ev.Check(t, "TestRandomConfirmation", ev.PickN(1500, 100000), func(t *rapid.T) {
+	ev.Check(t, "TestRandomConfirmation", ev.PickN(1500, 300000), func(t *rapid.T) {
 		p := rapid.SampledFrom(hx.Suites9()).Draw(t, "proposed")
 		ans := p
 		switch rapid.IntRange(0, 3).Draw(t, "field") {
@@ -291,7 +291,7 @@ func TestRandomConfirmation(t *testing.T) {
 // TestRandomSelection: longer preference lists (up to 8 entries, duplicates
 // allowed) against generated advertised subsets.
 func TestRandomSelection(t *testing.T) {
-	ev.Check(t, "TestRandomSelection", ev.PickN(1500, 100000), func(t *rapid.T) {
+	ev.Check(t, "TestRandomSelection", ev.PickN(1500, 300000), func(t *rapid.T) {
 		n := rapid.IntRange(2, 8).Draw(t, "len")
 		pref := make([]int, n)
 		for i := range pref {
